@@ -610,7 +610,9 @@ func vObserve(s *store, evs []vGenEvent, times []int64, dids map[string]did.DID,
 			found[d.ID.String()] = vDocStr(d)
 		}
 	}
-	line = append(line, fmt.Sprintf("cc=%d dc=%d nconf=%d niter=%d nactive=%d iter=[%s]", cc, dc, nconf, len(iterOrder), nfound, strings.Join(iterOrder, ",")))
+	unknown := did.MustParseDID("did:nuts:occursnowhere")
+	line = append(line, fmt.Sprintf("cc=%d dc=%d nconf=%d niter=%d nactive=%d iter=[%s] unknown=%s/%s", cc, dc, nconf, len(iterOrder), nfound, strings.Join(iterOrder, ","),
+		obs.resolve(unknown, &resolver.ResolveMetadata{AllowDeactivated: true}), obs.history(unknown, 0)))
 	get := func(m map[string]string, k string) string {
 		if v, ok := m[k]; ok {
 			return v
